@@ -561,9 +561,19 @@ class VCluster:
 
             def w(s, *a, **kw):
                 h = how(*a, **kw)
+                r = None
                 if h is not None and from_tracked_module():
-                    mutation(s, h)
-                return real(s, *a, **kw)
+                    r = mutation(s, h)
+                f = real(s, *a, **kw)
+                if r == "killlate":         # the same two "late" outcomes as in tracked_open
+                    try:
+                        f.close()
+                    except Exception:  # noqa
+                        pass
+                    die_here(vc.cur())
+                if r == "faillate":
+                    return LateFailFile(f, s)
+                return f
             patch(Path, name, w)
 
         def open_how(mode="r", *a, **kw):
